@@ -73,8 +73,12 @@ def _worker(item):
         # disagreeing (segyio then falls back to 4000 us) - the sample axis and tools.dt follow segyio's rule
         kcube = CUBES.index(cube_spec) if cube_spec in CUBES else 0
         binf = {1: {segyio.BinField.Interval: 0}, 3: {segyio.BinField.Interval: 3000}}.get(kcube)
-        inputs.write_segy(sgy, cube, il, xl, 4.0 * np.arange(nz), text=text, bin_fields=binf)
-        writers.segy_to_sgz(sgy, sgz, 16, None, header_detection='thorough')
+        # sampling of 4, 2.5, 0.5 and 1.5 ms (the sample axis and tools.dt must agree with segyio off whole milliseconds too);
+        # block layouts other than the default one (4 inlines deep but wider, square bricks): the emulator's lines come through other loaders
+        dz = (4.0, 4.0, 2.5, 4.0, 0.5, 1.5)[kcube % 6] if cube_spec in CUBES else 4.0
+        setting = ((16, None), (16, (4, 8, -1)), (16, None), (8, (8, 8, -1)))[ci % 4]
+        inputs.write_segy(sgy, cube, il, xl, dz * np.arange(nz), text=text, bin_fields=binf)
+        writers.segy_to_sgz(sgy, sgz, setting[0], setting[1], header_detection='thorough')
         with env.quiet():
             with SgzReader(sgz) as r:
                 vol = r.read_volume()
@@ -170,8 +174,12 @@ def _worker(item):
             dil, dxl = ilk[1] - ilk[0], xlk[1] - xlk[0]
             attempt('tools.cube(sgz)', lambda: codec.same_bits(seismic_zfp.tools.cube(sgz), vol))
             attempt('tools.dt', lambda: float(seismic_zfp.tools.dt(e)) == float(segyio.tools.dt(s)))
-            attempt('subvolume[full]', lambda: codec.same_bits(e.subvolume[i0:i1 + dil:dil, x0:x1 + dxl:dxl, 0:4 * nz:4], vol))
-            attempt('subvolume[stepped]', lambda: codec.same_bits(e.subvolume[ilk[1]:ilk[3]:2 * dil, xlk[1]:xlk[-1]:dxl, 4:20:8], vol[1:3:2, 1:len(xlk) - 1, 1:5:2]))
+            if dz == 4.0:
+                attempt('subvolume[full]', lambda: codec.same_bits(e.subvolume[i0:i1 + dil:dil, x0:x1 + dxl:dxl, 0:4 * nz:4], vol))
+                attempt('subvolume[stepped]', lambda: codec.same_bits(e.subvolume[ilk[1]:ilk[3]:2 * dil, xlk[1]:xlk[-1]:dxl, 4:20:8], vol[1:3:2, 1:len(xlk) - 1, 1:5:2]))
+            else:       # the sub-volume accessor addresses samples by whole milliseconds; off them only the open sample range is meaningful
+                attempt('subvolume[full]', lambda: codec.same_bits(e.subvolume[i0:i1 + dil:dil, x0:x1 + dxl:dxl, :], vol))
+                attempt('subvolume[stepped]', lambda: codec.same_bits(e.subvolume[ilk[1]:ilk[3]:2 * dil, xlk[1]:xlk[-1]:dxl, :], vol[1:3:2, 1:len(xlk) - 1, :]))
             attempt('subvolume[open-ended]', lambda: codec.same_bits(e.subvolume[ilk[2]:, :xlk[2], :], vol[2:, :2, :]))
 
             def outside():
